@@ -2,7 +2,11 @@
 from __future__ import annotations
 
 import copy
+import bz2
+import gzip
 import io
+import lzma
+import pathlib
 import os
 import pickle
 import re
@@ -133,11 +137,18 @@ def run_text(ctx, rng, n, monitor, tmp):
             with warnings.catch_warnings():
                 warnings.simplefilter("ignore")
                 if target == "path":
-                    path = os.path.join(tmp, f"f{i}.txt")
+                    # numpy's savetxt / loadtxt compress by extension; str and pathlib paths (D43)
+                    ext = gen.choice(rng, [".txt", ".txt", ".dat", "", ".txt.gz", ".gz", ".bz2", ".xz"])
+                    case["extension"] = ext
+                    tags.append(f"ext:{ext}")
+                    path = os.path.join(tmp, f"f{i}{ext}")
+                    as_path = pathlib.Path(path) if rng.random() < .3 else path
                     with monitor.watch("C13:savetxt", p):
-                        save(path, p, **opts)
-                    first = open(path).readline()
-                    r = numpoly.loadtxt(path, **load_kw)
+                        save(as_path, p, **opts)
+                    opener = {".gz": gzip.open, ".bz2": bz2.open, ".xz": lzma.open}.get(os.path.splitext(path)[1], open)
+                    with opener(path, "rt") as fh:
+                        first = fh.readline()
+                    r = numpoly.loadtxt(as_path, **load_kw)
                 else:
                     f = io.StringIO() if target == "StringIO" else io.BytesIO()
                     # sometimes the polynomial is not the first thing in the stream: the caller has written (and, when
